@@ -1,5 +1,57 @@
+/-
+  C11 — containers are memory-safe and leak-free for every operation history.
+
+  Lean cannot prove anything about the machine code gcc emits; machine-level memory safety is
+  sampled by ASan/UBSan/LSan on every correspondence run of every container (and this property's
+  own streams check the allocation ledger after EVERY operation and at release).  What IS proved
+  is the part of memory safety that is logic.  Every model function whose C original can
+  dereference NULL, follow a dangling pointer, index out of bounds, loop forever or memcpy
+  overlapping ranges returns `Except Fault`; the obligations of this property are the theorems,
+  proved for ALL histories / inputs, that the result is `.ok`:
+
+    tree table   C02.put_preserves_llrb, C02.remove_preserves_llrb   (no NULL child dereference in
+                 flip/rotate/move_red_*/fix, no failed assertion, fuel suffices), C02.reachable_llrb,
+                 C03.walk_complete (no dangling cursor, fuel suffices), C04.nearest_terminates
+    list/queue/… C09.walk_spec, C09.get_obj_spec (nearest-end walk finds the node), C09.history_refines
+    vector       C10.removeat_no_overlap (the block move is never memcpy on overlapping ranges, for
+                 the primitive the CURRENT source calls), C10.history_refines (all slots inside the buffer)
+    decoders     C17.urlDecode_safe, C17.b64Decode_safe, C17.hexDecode_safe, C17.parseQueries_safe
+    hashes       C18.reads_in_bounds
+    strings      C19.*_writes_in_contract, C19.replace_fits, C19.strcpy_bounded
+
+  (they are audited as obligations of this property by checks/c11.py), plus the ledger facts below.
+-/
+import QlibcModel.Props.C02
+import QlibcModel.Props.C03
+import QlibcModel.Props.C04
+import QlibcModel.Props.C09
+import QlibcModel.Props.C10
+import QlibcModel.Props.C17
+import QlibcModel.Props.C18
+import QlibcModel.Props.C19
 import QlibcModel.Tree.FaultSpec
-import QlibcModel.Tree.History
+
 namespace Qlibc.Props.C11
-theorem placeholder : True := trivial
+open Qlibc Qlibc.Tree Qlibc.Tree.T
+variable {K V : Type} (isEmpty : V → Bool)
+
+/-- the blocks a tree table owns are determined by its contents: the handle, and per entry the
+    node, the key and (if non-empty) the value — the harness reports exactly this number from
+    its allocator wrapper after every operation -/
+theorem tree_ledger (s : Tbl K V) :
+    s.live isEmpty = 1 + (s.abs.map (fun p => if isEmpty p.2 then 2 else 3)).sum := by
+  simp only [Tbl.live, Tbl.abs, List.map_map]
+  congr 2
+
+/-- equal contents, equal number of live blocks: no operation sequence that ends in the same
+    contents can have leaked or double-freed a block -/
+theorem tree_ledger_congr (s s' : Tbl K V) (h : s.abs = s'.abs) : s.live isEmpty = s'.live isEmpty :=
+  Tbl.live_congr isEmpty s s' h
+
+/-- `clear` (and hence `free`, which also releases the handle) releases every node -/
+theorem tree_clear_releases_all (s : Tbl K V) : s.clear.live isEmpty = 1 := Tbl.live_clear isEmpty s
+
+-- non-vacuity
+example : (Tbl.init : Tbl Bytes Bytes).live (·.isEmpty) = 1 := rfl
+
 end Qlibc.Props.C11
